@@ -19,6 +19,16 @@ const VAR_NAME_START_CHARS: [char; 52] = [
 ];
 const VAR_NAME_INDEX_PRESERVE: usize = 26; // 'A' ~ 'Z' are preserved
 
+// words that cannot be used as variable names (in sloppy or strict mode), or that the generated code relies on
+const RESERVED_VAR_NAMES: [&'static str; 52] = [
+    "do", "if", "in", "for", "let", "new", "try", "var", "case", "else", "enum", "eval", "null", "this",
+    "true", "void", "with", "await", "break", "catch", "class", "const", "false", "super", "throw",
+    "while", "yield", "delete", "export", "import", "public", "return", "static", "switch", "typeof",
+    "default", "extends", "finally", "package", "private", "continue", "debugger", "function",
+    "arguments", "interface", "protected", "implements", "instanceof", "undefined", "NaN", "Infinity",
+    "Object",
+];
+
 #[derive(Debug, Clone)]
 pub(crate) struct JsIdent {
     name: String,
@@ -202,6 +212,10 @@ fn get_var_name(mut var_id: usize) -> String {
     while var_id > 0 {
         var_name.push(VAR_NAME_CHARS[var_id % VAR_NAME_CHARS.len()]);
         var_id /= VAR_NAME_CHARS.len();
+    }
+    if RESERVED_VAR_NAMES.contains(&var_name.as_str()) {
+        // generated names never start with `_` , so this stays unique
+        var_name.insert(0, '_');
     }
     #[cfg(feature = "verif-hooks")]
     crate::verif::emit(crate::verif::Event::GenIdent { name: &var_name });
